@@ -33,7 +33,8 @@ def run(ctx):
 
     orw = prog.body(REACTOR + 'on_remove_worker')
     lost = effect_blocks(prog, orw, E_EV_LOST)
-    ctx.floor('R07.1', len(lost), 1, 'on_worker_lost call')
+    okl, _w = must_pass(orw, [0], lost) if lost else (False, None)
+    ctx.ob('R07.1', 'on_remove_worker|announces the loss', okl, 'on_remove_worker announces the loss (on_worker_lost) on every path', orw.loc())
     tf = orw.call_blocks(REACTOR + 'task_failed')
     ctx.floor('R07.1', len(tf), 2, 'task_failed calls in on_remove_worker')
     for b in tf:
